@@ -71,7 +71,7 @@ def build(ck):
 ALPHA = [b"a", b"B", b"c", b"*", b".", b"-", b"0", b"1", b":", b"\0", b" "]
 ALPHA_NAME = [b"a", b"B", b"c", b"*", b".", b"-", b"0", b"1", b":", b" "]
 LABELS = [b"a", b"B", b"c", b"ab", b"", b"*", b"a*", b"*a", b"0", b"1", b"a-1", b"xn--a"]
-IP_LITS = [b"1.2.3.4", b"01.2.3.4", b"1.2.3.04", b"1.2.3", b"1.2.3.4.", b"1.2.3.256", b"0.0.0.0",
+IP_LITS = [b"1.2.3.4", b"0000.1.2.3", b"1.2.3.0255", b"001.002.003.004", b"::ffff:1.2.3.0004", b"01.2.3.4", b"1.2.3.04", b"1.2.3", b"1.2.3.4.", b"1.2.3.256", b"0.0.0.0",
            b"255.255.255.255", b"1.2.3.4.5", b"::1", b"0:0:0:0:0:0:0:1", b"::", b"::ffff:1.2.3.4",
            b"::FFFF:1.2.3.4", b"::ffff:01.2.3.4", b"fe80::1", b"FE80::1", b"Fe80::1",
            b"1:2:3:4:5:6:7:8", b"1:2:3:4:5:6:7::", b"::2:3:4:5:6:7:8", b"1:2:3:4:5:6:1.2.3.4",
@@ -432,7 +432,7 @@ def pton_cases(rng, mode, n):
     out = [["pton %s %s" % (mode, vf.hexs(s))] for s in IP_LITS]
     pal = [b"0", b"1", b"2", b"5", b"9", b".", b":", b"a", b"F", b"g", b" ", b"f"]
     oct_ok = [b"0", b"1", b"9", b"10", b"99", b"100", b"199", b"249", b"255"]
-    oct_any = oct_ok + [b"00", b"01", b"001", b"256", b"260", b"300", b"", b"1a", b"099", b"0255", b"1000"]
+    oct_any = oct_ok + [b"00", b"01", b"001", b"256", b"260", b"300", b"", b"1a", b"099", b"0255", b"1000", b"0000", b"0001", b"0010", b"00001", b"000"]
     grp_ok = [b"0", b"1", b"f", b"F", b"10", b"aB", b"ffff", b"FFFF", b"0001", b"abcd", b"1234"]
     grp_any = grp_ok + [b"", b"10000", b"00001", b"g", b"fffff", b"-1"]
     for _ in range(n):
